@@ -541,12 +541,115 @@ Proof.
   - exact (in_net_full (V6 x) a He Ha).
 Qed.
 
+(* ---- configuration histories: the fold over the reloads is "the last valid
+        configuration" of corr/Run_C16.v ---------------------------------------- *)
+Notation cvalid := (config_valid parse_ip parse_cidr).
+Notation ineffect := (in_effect parse_ip parse_cidr).
+Notation hlist := (history_list parse_ip parse_cidr).
+
+Definition eff_list (d : list net) (cfg : string) : list net :=
+  match snets cfg with Some l => or_default d l | None => d end.
+
+Lemma last_opt_snoc : forall {A} (l : list A) x, last_opt (l ++ [x]) = Some x.
+Proof. intros A l x. unfold last_opt. rewrite rev_app_distr. reflexivity. Qed.
+
+Lemma fold_reload_spec : forall d rl cur,
+  fold_left (reload_list parse_ip parse_cidr d) rl cur =
+  match last_opt (filter cvalid (map cfg_text rl)) with
+  | Some c => eff_list d c
+  | None => cur
+  end.
+Proof.
+  intros d rl. induction rl as [|x rl IH] using rev_ind; intros cur; [reflexivity|].
+  rewrite fold_left_app, map_app, filter_app. cbn [fold_left map filter].
+  unfold reload_list at 1. rewrite parse_allowed_spec.
+  change (opt_text x) with (cfg_text x).
+  unfold spec_nets at 1. destruct (cvalid (cfg_text x)) eqn:Hv.
+  - rewrite last_opt_snoc. unfold eff_list, spec_nets. rewrite Hv. reflexivity.
+  - rewrite app_nil_r. apply IH.
+Qed.
+
+Lemma in_effect_valid : forall st rl cfg, ineffect st rl = Some cfg -> cvalid cfg = true.
+Proof.
+  intros st rl cfg. unfold in_effect. destruct (cvalid (cfg_text st)) eqn:Hs; [|discriminate].
+  destruct (last_opt _) as [c|] eqn:El.
+  - intros H. injection H as <-. apply last_opt_filter_Some in El as (_ & _ & _ & Hc & _). exact Hc.
+  - intros H. injection H as <-. exact Hs.
+Qed.
+
+Lemma in_effect_nets : forall st rl cfg, ineffect st rl = Some cfg -> exists l, snets cfg = Some l.
+Proof.
+  intros st rl cfg H. apply in_effect_valid in H. unfold spec_nets. rewrite H. eauto.
+Qed.
+
+(* the model's list after a history is the list of the configuration in effect *)
+Lemma history_list_spec : forall d st rl,
+  hlist d st rl =
+  match ineffect st rl with
+  | Some cfg => match snets cfg with Some l => Some (or_default d l) | None => None end
+  | None => None
+  end.
+Proof.
+  intros d st rl. unfold history_list, in_effect. rewrite parse_allowed_spec.
+  change (opt_text st) with (cfg_text st).
+  unfold spec_nets at 1. destruct (cvalid (cfg_text st)) eqn:Hs; [|reflexivity].
+  rewrite fold_reload_spec. destruct (last_opt _) as [c|] eqn:El.
+  - apply last_opt_filter_Some in El as (_ & _ & _ & Hc & _).
+    unfold eff_list, spec_nets. rewrite Hc. reflexivity.
+  - unfold spec_nets. rewrite Hs. reflexivity.
+Qed.
+
+(* after any reloads the server answers as one freshly started with the configuration in
+   effect (the model's OCfgHub / OCfgStats on that text) *)
+Lemma hist_hub_as_fresh : forall st rl cfg peer xr xff,
+  ineffect st rl = Some cfg ->
+  step parse_ip split_host_port parse_cidr (OHistHub st rl peer xr xff) =
+  step parse_ip split_host_port parse_cidr (OCfgHub cfg peer xr xff).
+Proof.
+  intros st rl cfg peer xr xff H. cbn [step]. rewrite history_list_spec, H.
+  unfold hub_trusted. rewrite parse_allowed_spec. destruct (snets cfg); reflexivity.
+Qed.
+Lemma hist_stats_as_fresh : forall e st rl tcfg acfg peer xr xff,
+  ineffect (fst st) (map fst rl) = Some tcfg ->
+  ineffect (snd st) (map snd rl) = Some acfg ->
+  step parse_ip split_host_port parse_cidr (OHistStats e st rl peer xr xff) =
+  step parse_ip split_host_port parse_cidr (OCfgStats e tcfg acfg peer xr xff).
+Proof.
+  intros e st rl tcfg acfg peer xr xff Ht Ha. cbn [step]. rewrite !history_list_spec, Ht, Ha.
+  unfold hub_trusted, stats_allowed. rewrite !parse_allowed_spec.
+  destruct (snets tcfg); destruct (snets acfg); reflexivity.
+Qed.
+
+(* a reload with a file from which the option has been removed: whatever was configured
+   before, nothing is configured now (provided the server started at all) *)
+Lemma in_effect_removed : forall st rl,
+  cvalid (cfg_text st) = true -> ineffect st (rl ++ [None]) = Some "".
+Proof.
+  intros st rl Hs. unfold in_effect. rewrite Hs, map_app, filter_app. cbn [map filter cfg_text].
+  assert (Hv : cvalid "" = true) by reflexivity. rewrite Hv, last_opt_snoc. reflexivity.
+Qed.
+(* ... and a reload with a valid text replaces whatever was there *)
+Lemma in_effect_replaced : forall st rl o,
+  cvalid (cfg_text st) = true -> cvalid (cfg_text o) = true -> ineffect st (rl ++ [o]) = Some (cfg_text o).
+Proof.
+  intros st rl o Hs Ho. unfold in_effect. rewrite Hs, map_app, filter_app. cbn [map filter].
+  rewrite Ho, last_opt_snoc. reflexivity.
+Qed.
+(* ... while one with a refused text changes nothing *)
+Lemma in_effect_refused : forall st rl o,
+  cvalid (cfg_text o) = false -> ineffect st (rl ++ [o]) = ineffect st rl.
+Proof.
+  intros st rl o Ho. unfold in_effect. rewrite map_app, filter_app. cbn [map filter].
+  rewrite Ho, app_nil_r. reflexivity.
+Qed.
+
 Lemma model_satisfies_P : oracle_sane -> forall ops,
   P_C16 parse_ip split_host_port parse_cidr (trace_of parse_ip split_host_port parse_cidr ops) = true.
 Proof.
   intros Ho ops. unfold P_C16, trace_of. apply forallb_forall. intros [o v] Hin.
   apply in_map_iff in Hin. destruct Hin as (o' & Heq & _). injection Heq as -> <-.
-  destruct o as [t peer xr xff|e t al peer xr xff|nets a| |cfg peer xr xff|cfg peer xr xff|e tcfg acfg peer xr xff|cfg a|cfg];
+  destruct o as [t peer xr xff|e t al peer xr xff|nets a| |cfg peer xr xff|cfg peer xr xff|e tcfg acfg peer xr xff|cfg a|cfg
+                  |st rl peer xr xff|e st rl peer xr xff];
     cbn [P_step step].
   - rewrite (real_ip_spec Ho). apply String.eqb_refl.
   - unfold endpoint_status. rewrite (allow_stats_spec Ho).
@@ -569,6 +672,19 @@ Proof.
   - rewrite parse_allowed_spec. destruct (snets cfg); [|reflexivity].
     rewrite allowed_on_list. apply Bool.eqb_reflx.
   - rewrite parse_allowed_spec. destruct (snets cfg); reflexivity.
+  - rewrite history_list_spec. destruct (ineffect st rl) as [cfg|] eqn:E; [|reflexivity].
+    destruct (in_effect_nets _ _ _ E) as (t & Ht). rewrite Ht.
+    rewrite (real_ip_spec Ho). apply String.eqb_refl.
+  - rewrite !history_list_spec.
+    destruct (ineffect (fst st) (map fst rl)) as [tcfg|] eqn:Et;
+      [|destruct (ineffect (snd st) (map snd rl)); reflexivity].
+    destruct (in_effect_nets _ _ _ Et) as (t & Ht). rewrite Ht.
+    destruct (ineffect (snd st) (map snd rl)) as [acfg|] eqn:Ea; [|reflexivity].
+    destruct (in_effect_nets _ _ _ Ea) as (al & Hal). rewrite Hal.
+    unfold endpoint_status. rewrite (allow_stats_spec Ho).
+    change (or_default default_trusted t) with (spec_or_default default_trusted t).
+    change (or_default default_stats_allowed al) with (spec_or_default default_stats_allowed al).
+    destruct (spec_gate parse_ip split_host_port _ _ peer xr xff); reflexivity.
 Qed.
 
 (* a direct client of a hub configured with the text cfg: the result is its
